@@ -177,10 +177,10 @@ def closure_of(F, parent_ret, suffix):
     return cl[0], F.need(cl[0][1])
 
 
-def R4_formula(ctx):
+def R4_formula(ctx, rid="C07.R4"):
     """C07.R4 sum aggregation is the documented formula"""
     F = ctx.F
-    ctx.rule("C07.R4", "per feature: map_value(rate[i], next[i] - prev[i]) * weight[i] with one slot i; network parts rate[i].cost(..) * weight[i]; Sum folds + from ZERO, Mul folds * from ONE (ZERO when empty); rate tables per variant", floor=20)
+    ctx.rule(rid, "per feature: map_value(rate[i], next[i] - prev[i]) * weight[i] with one slot i; network parts rate[i].cost(..) * weight[i]; Sum folds + from ZERO, Mul folds * from ONE (ZERO when empty); rate tables per variant", floor=20)
     # ---- vehicle costs
     b = F.need(OPS + "calculate_vehicle_costs")
     rt = nosite(deep_strip(Terms(b).return_term()))
